@@ -13,7 +13,7 @@ same collection with an index or an explicit iterator says the same thing and mu
                                                         <body>
 
 each becomes `for e in X: <body>` (A: every `X[i]` in the body replaced by the element) under conditions checked here that
-make the rewriting exact:
+make the rewriting exact; a fourth form, a plain counter - `i = 0; while i < N: <body>; i += 1` - becomes `for i in range(N)`:
 
   * A: `i` is stored nowhere in the loop but by the final `i += 1`, is initialised to the constant 0 by the statement right
     before the loop, is not used in the body other than as `X[i]`, and is not read after the loop (or the loop has an `else` -
@@ -127,6 +127,40 @@ def _try_index_form(prev: ast.stmt, w: ast.While, func: ast.AST, fresh: str) -> 
     return ast.copy_location(out, w)
 
 
+def _try_counter_form(prev: ast.stmt, w: ast.While, func: ast.AST) -> Optional[ast.For]:
+    """(D)  i = 0; while i < N: <body>; i += 1   ->   for i in range(N): <body>
+    N a name / attribute chain / constant that the loop does not store to, i stored nowhere else in the loop and not looked at
+    after it, no `continue` (it would skip the step), no `else`"""
+    t = w.test
+    if not (isinstance(t, ast.Compare) and len(t.ops) == 1 and isinstance(t.ops[0], ast.Lt) and isinstance(t.left, ast.Name)):
+        return None
+    i = t.left.id
+    n_expr = t.comparators[0]
+    if not isinstance(n_expr, (ast.Name, ast.Attribute, ast.Constant)):
+        return None
+    if not (isinstance(prev, ast.Assign) and len(prev.targets) == 1 and isinstance(prev.targets[0], ast.Name) and prev.targets[0].id == i and isinstance(prev.value, ast.Constant) and prev.value.value == 0 and type(prev.value.value) is int):
+        return None
+    if w.orelse or not w.body:
+        return None
+    step = w.body[-1]
+    if not (isinstance(step, ast.AugAssign) and isinstance(step.target, ast.Name) and step.target.id == i and isinstance(step.op, ast.Add) and isinstance(step.value, ast.Constant) and step.value.value == 1):
+        return None
+    body = list(w.body[:-1])
+    if any(_stores(st, i) for st in body) or _has(body, (ast.Continue,)):
+        return None
+    x = _norm(n_expr)
+    if not isinstance(n_expr, ast.Constant) and (_mutates(body, x) or (isinstance(n_expr, ast.Name) and any(_stores(st, n_expr.id) for st in body))):
+        return None
+
+    def occurrences(n: ast.AST) -> int:
+        return sum(1 for y in ast.walk(n) if isinstance(y, ast.Name) and y.id == i)
+
+    if occurrences(func) != occurrences(prev) + occurrences(w):
+        return None  # the counter is looked at outside the loop
+    out = ast.For(target=ast.Name(id=i, ctx=ast.Store()), iter=ast.Call(func=ast.Name(id="range", ctx=ast.Load()), args=[copy.deepcopy(n_expr)], keywords=[]), body=copy.deepcopy(body) or [ast.Pass()], orelse=[], type_comment=None)
+    return ast.copy_location(out, w)
+
+
 def _iter_source(prev: ast.stmt) -> Optional[Any]:
     if isinstance(prev, ast.Assign) and len(prev.targets) == 1 and isinstance(prev.targets[0], ast.Name) and isinstance(prev.value, ast.Call) and isinstance(prev.value.func, ast.Name) and prev.value.func.id == "iter" and len(prev.value.args) == 1 and not prev.value.keywords:
         return prev.targets[0].id, prev.value.args[0]
@@ -200,7 +234,7 @@ def normalize_loops(func: ast.AST, relaxed: bool = False) -> int:
             if isinstance(st, ast.While) and out:
                 prev = out[-1]
                 serial[0] += 1
-                new = _try_index_form(prev, st, func, "_el%d_" % serial[0]) or _try_next_forms(prev, st, func, relaxed)
+                new = _try_index_form(prev, st, func, "_el%d_" % serial[0]) or _try_next_forms(prev, st, func, relaxed) or _try_counter_form(prev, st, func)
                 if new is not None:
                     out.pop()  # the initialisation of the counter / the iterator goes with the loop
                     out.append(new)
